@@ -44,6 +44,28 @@ T = {
    needs='SQLite; a ChangeField(null=...) and a ChangeField(db_table=...) on the same ManyToManyField in one batch (the optimiser merges them), no other rebuild of that table next to them',
    detected_by='C18: rebuild-count oracle batched <= one-at-a-time on the relation-field space (VIOLATION with replay)',
    strengthened='first run missed it (the sequence space had no ManyToManyField): added the relation-field space (M2M with explicit db_table, FK) — exhaustive length <= 2, sampled length 3'),
+ 'C04-changed-models-lookup-old-sig': dict(property='C04',
+   breaks='get_app_pending_mutations looks the old models up in the OLD signature when computing the deleted models, so models that disappeared never count as changed and every mutation on them (DeleteModel) is filtered out',
+   needs='evolutions discovered the normal way (SEQUENCE modules) and a history with a DeleteModel step that an upgrade crosses; fresh installs are unaffected',
+   detected_by='C04: path-convergence oracle on the scripted history V0 -AddField- V1 -DeleteModel- V2 -ChangeField- V3 and generated histories with DeleteModel (VIOLATION with replay: upgraded database keeps the table, stored signature differs from the models)',
+   strengthened='first run missed it (generated histories had no DeleteModel): DeleteModel added to the history generator and a scripted history in which a model disappears mid-history runs first'),
+ 'C10-evolution-required-only-with-sql': dict(property='C10',
+   breaks='EvolveAppTask.prepare sets evolution_required only when the pending mutations produce SQL; MoveToDjangoMigrations produces none',
+   needs='the hand-over evolution is the only pending work of the app in that run (database already at the last evolution, or k = 0)',
+   detected_by='C10: recorder/signature oracle on the exhaustive (k, m, mark_applied prefix, start state) table (VIOLATION with replay: stored upgrade_method stays "evolutions", migrations not recorded)', strengthened='none needed'),
+ 'C13-q-negation-overwritten': dict(property='C13',
+   breaks='QSerialization.serialize_to_python builds the text as a string and the multi-child branch assigns instead of appending: the leading ~ of a negated multi-child Q is lost',
+   needs='a negated Q with two or more children anywhere in a constraint/index condition',
+   detected_by='C13: parse_tree / evaluation correspondences with the Lean model (toPy puts ~ in front of the parenthesised chain) and the eval round-trip oracle (VIOLATION with replay)', strengthened='none needed'),
+ 'C15-m2m-drop-replaced-not-added': dict(property='C15',
+   breaks='DeleteModel.mutate replaces the accumulated SQL on every many-to-many field instead of adding to it: only the last M2M table (and the model table) is dropped',
+   needs='a deleted model / purged app model with at least two ManyToManyFields with auto-created tables',
+   detected_by='C15: exact-drop oracle (VIOLATION with replay: dropped tables are a strict subset of the owned tables)',
+   strengthened='first run missed it (no generated model had two M2M fields): stale-app models, the second installed app and a DeleteModel candidate `Hub` now carry two or three ManyToManyFields'),
+ 'C16-unapplied-evolutions-default-db': dict(property='C16',
+   breaks='get_unapplied_evolutions delegates to get_applied_evolutions without forwarding the database: pending evolutions of a non-default database are computed from the default database\'s records',
+   needs='two databases; the default one evolved (and the label recorded there) before the other one',
+   detected_by='C16: per-database oracle after evolving each database in turn (VIOLATION with replay: after evolving `other` its models are not at the evolved signature)', strengthened='none needed'),
 }
 for d, meta in T.items():
     p = os.path.join(V, 'seeded', d)
